@@ -38,14 +38,17 @@ def translators(repo):
     programs for Model/C02_PtrInterp.v; Props/C02.v proves that running them is the pointer-level model.
     Fails closed (raises) on any construct it does not understand."""
     import c02_helpers
-    return {"C02_Gen": c02_helpers.translate(repo)}
+    import c02_methods
+    return {"C02_Gen": c02_helpers.translate(repo),       # the five linked-list helpers
+            "C02_GenM": c02_methods.translate(repo)}      # the public methods (Model/C02_MethInterp.v)
 
 
 TRUSTED = ["Model/C02_Model.v is hand-written (linked-list cells/pointers abstracted to a list); tied to "
            "boltons.cacheutils.LRI/LRU by the correspondence run",
            "harness/c02.py serialiser (tokens <-> Python objects, observation rendering)",
-           "harness/translators/c02_helpers.py (ast of the five helpers -> programs) and the interpreter "
-           "Model/C02_PtrInterp.v (semantics of the straight-line subset: evaluation order, chained assignment)"]
+           "harness/translators/c02_helpers.py + c02_methods.py (ast of the five helpers and of ten public methods -> "
+           "programs) and the interpreters Model/C02_PtrInterp.v, Model/C02_MethInterp.v (semantics of the Python "
+           "subset: evaluation order, chained assignment, try/except KeyError/else, with, for, calls)"]
 
 # ---------------------------------------------------------------------------
 # tokens <-> Python objects.  No two tokens map to ==-equal objects.
